@@ -781,3 +781,14 @@ Print Assumptions C13_count_loop_translated.
 Print Assumptions C13_count_non_air_translated.
 Print Assumptions C13_read_states_translated.
 Print Assumptions C13_read_biomes_translated.
+
+(* the two models of New{States,Biomes}PaletteContainerWithData agree (outcome class; on success the C12 container
+   viewed at field level IS the C13 container), for every length, data and palette - GUARD: palettes of at most
+   256 block states / 8 biomes, i.e. everything but the resolveIndirect branch, where the two models carry two
+   separately written resolve loops (that branch is covered on the C12 side by C13_from_save_vanilla) *)
+From GoMC Require Import Proofs.C13_refine.
+Theorem C13_with_data_refines_partial : forall gs gb biome len dat pat,
+  (Model.C12.zlen pat <= Model.C12.wide_limit (Model.C12.ckind (cf_of gs gb biome)))%Z ->
+  refines (Model.C12.pc_with_data (cf_of gs gb biome) len dat pat) (with_data gs gb biome len dat pat).
+Proof. exact with_data_refines. Qed.
+Print Assumptions C13_with_data_refines_partial.
